@@ -4,7 +4,7 @@ import os
 import sys
 
 from props.common import Rng, bspec, hexspec, TEST_KEY
-from props.hist import PLATFORMS, DEG
+from props.hist import PLATFORMS, DEG, history
 
 sys.path.insert(0, os.path.dirname(os.path.dirname(os.path.abspath(__file__))))
 import charness  # noqa: E402
@@ -273,6 +273,43 @@ def correspondence(ctx):
                 meta[cid] = (j, inp.uy(), None)
             res = verif.run_lines(b, lines, env={"RAYON_NUM_THREADS": str(n)})
             compare(ctx, "update_rayon", "%s/pool%d" % (label, n), lines, meta, res, mres, profile=profile)
+
+        # multi-step histories in which EVERY update goes through update_rayon (real pool) or through
+        # update_with_join with a random script: small updates (no join at all), updates that end on
+        # subtree boundaries, clones, queries in between - against the model of the same history with
+        # plain update (C08_update_history_schedule_independent)
+        hrng = Rng(ctx.seed * 7919 + 5)
+        hl, hmodel, hmeta = [], [], {}
+        nh = 120 if thorough else 40
+        for j in range(nh):
+            plat = PLATFORMS[j % len(PLATFORMS)]
+            mode = modes(hrng)[j % 4]
+            ops = history(hrng, plat, hrng.range(3, 9), with_clone=True, with_reset=True, query_rate=0.35, maxchunks=24,
+                          budget=64 * CHUNK)
+            if j % 4 == 0:     # targeted: a whole power-of-two subtree, then a tail of at most one chunk, then observe
+                d = DEG[plat]
+                first = CHUNK * hrng.choice([2, 4, 8, d, 2 * d, 4 * d, 64])
+                ops = ["u:0:" + bspec(hrng, first), "u:0:" + bspec(hrng, hrng.choice([1, 63, 64, 65, 1000, 1024])),
+                       "c:0", "f:0", "x:0:131", "u:0:" + bspec(hrng, hrng.choice([0, 1, 1024, 3000])), "f:0"]
+            yops, sops = [], []
+            for o in ops:
+                if o.startswith("u:"):
+                    yops.append("uy:" + o[2:])
+                    sops.append("us:" + o[2:] + ":" + "".join(hrng.choice("012") for _ in range(hrng.range(0, 12))))
+                else:
+                    yops.append(o)
+                    sops.append(o)
+            hmodel.append("H %s %s %s" % (mode, plat, " ".join(ops)))
+            for tag, oo in (("y", yops), ("s", sops)):
+                cid = "h%s%d" % (tag, j)
+                rest = "H %s %s %s" % (mode, plat, " ".join(oo))
+                hl.append(cid + " " + rest)
+                hmeta[cid] = (j, rest, "hist %s %d" % (tag, j))
+        hm = verif.run_model(drv, ["m%d %s" % (j, l) for j, l in enumerate(hmodel)])
+        hmres = [hm.get("m%d" % j, "MISSING") for j in range(len(hmodel))]
+        for n in ([2, 16] if not thorough else POOLS):
+            res = verif.run_lines(b, hl, env={"RAYON_NUM_THREADS": str(n)})
+            compare(ctx, "rayon/scripted histories", "%s/pool%d" % (label, n), hl, hmeta, res, hmres, profile=profile)
 
     # ---------------- (b) C: update_tbb through the scripted seam ----------------
     cbuilds = [None] + (["tsan"] if thorough else [])
